@@ -224,6 +224,17 @@ fn inner_families(want: Flavor) -> Vec<(Family, u32)> {
 
 fn gen_children(c: &mut Cur, p: &Profile, fam: Family, n: usize, depth: usize, nests_left: &mut usize) -> Vec<ChildSpec> {
     let flavor = fam.child_flavor();
+    // hundreds of children times hundreds of polls each is more than the
+    // trace oracles can digest: long scripts only in small combinators
+    let small;
+    let p = if n > 24 {
+        let mut q = p.clone();
+        q.p_long = 0;
+        small = q;
+        &small
+    } else {
+        p
+    };
     // big containers: independent random scripts make "all of them fail" or
     // "the first 256 stay pending" astronomically unlikely, so most big cases
     // use one script for all children plus a few exceptions
@@ -388,10 +399,10 @@ pub fn gen_case(bytes: &[u8], p: &Profile) -> Case {
         // tuple: element types with / without destructor, with a niche, wide
         let hetero = root.container == Container::Tuple && root.children.len() >= 2;
         let allowed: &[u8] = match (root.family, hetero) {
-            (Family::Join | Family::Zip, true) => &[1, 2, 4, 4],
-            (Family::Join | Family::Zip, false) => &[1, 2],
-            (Family::TryJoin, true) => &[1, 2, 3, 4, 4],
-            (Family::TryJoin, false) => &[1, 2, 3],
+            (Family::Join | Family::Zip, true) => &[1, 2, 4, 4, 5],
+            (Family::Join | Family::Zip, false) => &[1, 2, 5],
+            (Family::TryJoin, true) => &[1, 2, 3, 4, 4, 5],
+            (Family::TryJoin, false) => &[1, 2, 3, 5],
             (Family::RaceOk, _) => &[1, 2, 3],
             _ => &[1],
         };
